@@ -39,6 +39,7 @@ impl EllQ {
   }
   pub fn run(&self) -> Result<Bm, String> {
     let q = *self;
+    journal(self.api(), || self.to_json());
     guarded(move || {
       if q.delta == 0 {
         Bm::from_impl(&nested::elliptical_cone_coverage(q.depth, q.lon, q.lat, q.a, q.b, q.pa))
